@@ -199,7 +199,54 @@ def r2(ctx):
         ctx.check("ClientSSM.await_confirmation:cap[own=%s]" % own, outs == {want}, where(c.module, f), "segmented ack with own support %s: expected %s, found %s" % (own, want, sorted(outs)))
 
 
-@rule("C12.R3", "the peer's limits are taken from the peer (request header, I-Am) and our own are announced truthfully", floor=9, engines="E0/E1")
+def _arg_kind(prog, cls, expr, depth=0):
+    """Coarse kind of an expression handed to the device-info cache: 'DeviceInfo' (a
+    cache record), 'Address', 'int', or None when it cannot be told."""
+    t = norm(expr)
+    if isinstance(expr, ast.Call) and isinstance(expr.func, ast.Attribute) and expr.func.attr in ("get_device_info", "acquire"):
+        return "DeviceInfo"
+    if isinstance(expr, ast.Constant) and isinstance(expr.value, int):
+        return "int"
+    if isinstance(expr, ast.Attribute) and expr.attr in ("pduSource", "pduDestination", "address"):
+        return "Address"
+    if isinstance(expr, ast.Attribute) and expr.attr == "deviceIdentifier":
+        return "int"
+    if depth > 3:
+        return None
+    if is_self_attr(expr):
+        kinds = set()
+        for k in prog.mro(cls):
+            for m in k.methods.values():
+                for tgt, s in attr_stores(m, expr.attr):
+                    if isinstance(s, ast.Assign):
+                        v = s.value
+                        if isinstance(v, ast.Name) and v.id in [a.arg for a in m.args.args]:
+                            kinds.add(_param_kind(prog, k, m, v.id, depth + 1))
+                        else:
+                            kinds.add(_arg_kind(prog, k, v, depth + 1))
+        kinds.discard(None)
+        return kinds.pop() if len(kinds) == 1 else None
+    return None
+
+
+def _param_kind(prog, cls, m, pname, depth):
+    """Kind of a constructor parameter, from the construction sites of the class family in the module."""
+    if m.name != "__init__":
+        return None
+    idx = [a.arg for a in m.args.args].index(pname) - 1
+    kinds = set()
+    for name, k in cls.module.classes.items():
+        for mm in k.methods.values():
+            for call in calls_in(mm):
+                if isinstance(call.func, ast.Name) and idx < len(call.args):
+                    tgt = prog.resolve_class_expr(cls.module, call.func) if call.func.id in cls.module.classes else None
+                    if tgt is not None and cls in prog.mro(tgt):
+                        kinds.add(_arg_kind(prog, k, call.args[idx], depth + 1))
+    kinds.discard(None)
+    return kinds.pop() if len(kinds) == 1 else None
+
+
+@rule("C12.R3","the peer's limits are taken from the peer (request header, I-Am) and our own are announced truthfully", floor=9, engines="E0/E1")
 def r3(ctx):
     prog = ctx.prog
     c = prog.cls(MOD, "ServerSSM")
@@ -229,6 +276,47 @@ def r3(ctx):
         ctx.check("DeviceInfoCache.iam_device_info:%s" % fld, ok, where(dc.module, f), "device info %s must be copied from the I-Am's %s" % (fld, src))
     upd = [x for x in calls_in(f) if self_call(x) == "update_device_info"]
     ctx.check("DeviceInfoCache.iam_device_info:stored", len(upd) == 1 and not [x for x in facts_at(upd[0]) if x.origin == "arm"], where(dc.module, f), "the learned record must be put into the cache")
+    # a record the cache has never seen (no _cache_keys yet) must become retrievable under both keys
+    f = dc.methods.get("update_device_info")
+    if f is None:
+        raise AnchorMissing("DeviceInfoCache.update_device_info")
+    rec = f.args.args[1].arg
+    ev = Evaluator(prog, dc.module, dc)
+    oldkeys = {}
+    for s in ast.walk(f):
+        if isinstance(s, ast.Assign) and isinstance(s.targets[0], ast.Tuple) and "_cache_keys" in norm(s.value):
+            for e in s.targets[0].elts:
+                if isinstance(e, ast.Name):
+                    oldkeys[e.id] = None
+    for fld in ("deviceIdentifier", "address"):
+        sts = [s for t, s in stores_in(f) if isinstance(t, ast.Subscript) and norm(t.value) == "self.cache" and norm(t.slice) == "%s.%s" % (rec, fld)
+               and isinstance(s, ast.Assign) and norm(s.value) == rec]
+        env = dict(oldkeys)
+        env["%s.%s" % (rec, fld)] = 7
+        ok = bool(oldkeys) and any(ev.may_hold(facts_at(s), env) for s in sts)
+        ctx.check("DeviceInfoCache.update_device_info:new-record-stored[%s]" % fld, ok, where(dc.module, f),
+                  "a record without previous cache keys is never stored under its %s: what an I-Am announced is lost and get_device_info() keeps answering None" % fld)
+    # the SSMs use the cache through its key contract: acquire() takes what its isinstance tests accept
+    acq = dc.methods.get("acquire")
+    if acq is None:
+        raise AnchorMissing("DeviceInfoCache.acquire")
+    key = acq.args.args[1].arg
+    accepted = set()
+    for n in ast.walk(acq):
+        if isinstance(n, ast.Call) and norm(n.func) == "isinstance" and norm(n.args[0]) == key:
+            tt = n.args[1].elts if isinstance(n.args[1], ast.Tuple) else [n.args[1]]
+            accepted |= {norm(x) for x in tt}
+    nsite = 0
+    for cname in ("ClientSSM", "ServerSSM"):
+        sc = prog.cls(MOD, cname)
+        for mname, m in sc.methods.items():
+            for call in calls_in(m):
+                if isinstance(call.func, ast.Attribute) and call.func.attr == "acquire" and "deviceInfoCache" in norm(call.func.value):
+                    nsite += 1
+                    kind = _arg_kind(prog, sc, call.args[0]) if call.args else None
+                    ctx.check("%s.%s:acquire-key-kind" % (cname, mname), kind in accepted, where(sc.module, call),
+                              "acquire() accepts %s but is called with %s (%s): the transaction dies with TypeError as soon as the cache knows the peer" % (sorted(accepted), norm(call.args[0]) if call.args else None, kind))
+    ctx.check("SSM:acquire-sites", nsite >= 2, where(dc.module, acq), "both state machines acquire the peer's record")
     # our own limits in requests
     c = prog.cls(MOD, "SSM")
     f = c.methods["get_segment"]
